@@ -58,8 +58,11 @@ fn main() {
         "C07" => run_prop(c07::C07, tier, seed, replay),
         "C08" => run_prop(c08::C08, tier, seed, replay),
         "C09" => run_prop(c09::C09, tier, seed, replay),
+        "C10" => run_prop(c10::C10, tier, seed, replay),
+        "C11" => run_prop(c11::C11, tier, seed, replay),
         "C12" => run_prop(c12::C12, tier, seed, replay),
         "C13" => run_prop(c13::C13, tier, seed, replay),
+        "C14" => run_prop(c14::C14, tier, seed, replay),
         "C16" => run_prop(c16::C16, tier, seed, replay),
         "C18" => run_prop(c18::C18, tier, seed, replay),
         "C19" => run_prop(c19::C19, tier, seed, replay),
